@@ -1,6 +1,6 @@
 (* Props/C08.v — Kruskal re-parameterisations preserve the tensor. Only statements, `exact`, Print Assumptions. *)
 From Coq Require Import List Arith Bool ZArith QArith Permutation Ring Sorted.
-From PV Require Import Base.Index Base.Perm Base.Sum Model.Repr Model.C08Kruskal Proofs.C08Proofs Proofs.C08NormalForm Proofs.C08Vec.
+From PV Require Import Base.Index Base.Perm Base.Sum Model.Repr Model.C08Kruskal Proofs.C08Proofs Proofs.C08NormalForm Proofs.C08Vec Proofs.C08Signs.
 Import ListNotations.
 Local Open Scope nat_scope.
 
@@ -53,6 +53,25 @@ Proof. intros negcol K r. exact (fixsigns_parity V v0 vinv negcol K r). Qed.
 Theorem C08_sign_parity_other : forall (neg : V -> bool) (leb : V -> V -> bool) A B r,
   Nat.even (length (flips_of (fun n r => memb n (fso_modes v0 vadd vmul vopp neg leb A B r)) (length (kfactors A)) r)) = true.
 Proof. intros neg leb A B r. exact (fixsigns_other_parity V v0 vadd vmul vopp vinv neg leb A B r). Qed.
+
+
+(* fixsigns(other) of the repaired code, SIGN-AGREEMENT NORMAL FORM (per component r of the reference, both operands already
+   normalised): in the order idx = argsort(scores) the new scores <A'_n[:,r], B_n[:,r]> are the old ones with the first
+   endpt negated; at most ONE mode still correlates negatively with the reference, NONE when the number of negative
+   scores was even.  For every total comparison and every sign test that is monotone and has neg(-x) = false when neg x. *)
+Theorem C08_fixsigns_other_normal_form : forall (neg : V -> bool) (leb : V -> V -> bool),
+  (forall a b, leb a b = false -> leb b a = true) ->
+  (forall a b, leb a b = true -> neg b = true -> neg a = true) ->
+  (forall x, neg x = true -> neg (vopp x) = false) ->
+  forall A B r, r < krank B -> r < krank A ->
+  let s := fso_scores v0 vadd vmul A B r in let idx := argsort leb s in let ss := pick v0 idx s in
+  let A' := k_fixsigns_other_core v0 v1 vadd vmul vopp neg leb A B in
+  Sorted (fun a b => leb a b = true) ss /\
+  (forall q, q < length (kfactors A) ->
+     nth (nth q idx 0) (fso_scores v0 vadd vmul A' B r) v0 = flipped_sorted V v0 vopp neg leb ss q) /\
+  let cnt := length (filter (fun q => neg (nth (nth q idx 0) (fso_scores v0 vadd vmul A' B r) v0)) (seq 0 (length (kfactors A)))) in
+  cnt <= 1 /\ (Nat.even (length (filter neg ss)) = true -> cnt = 0).
+Proof. intros neg leb H1 H2 H3 A B r HB HA. exact (fixsigns_other_scores V v0 v1 vadd vmul vsub vopp Vring neg leb H1 H2 H3 A B r HB HA). Qed.
 
 (* the insertion argsort used by the executable instances is a permutation for every comparison function *)
 Theorem C08_argsort_perm : forall (leb : V -> V -> bool) l, is_perm (argsort_desc leb l) (length l).
@@ -198,6 +217,7 @@ Print Assumptions C08_invariant_fixsigns.
 Print Assumptions C08_sign_parity.
 Print Assumptions C08_sign_parity_other.
 Print Assumptions C08_argsort_perm.
+Print Assumptions C08_fixsigns_other_normal_form.
 Print Assumptions C08_invariant_normalize_mode.
 Print Assumptions C08_invariant_normalize.
 Print Assumptions C08_invariant_arrange.
@@ -260,3 +280,12 @@ Example C08_example_tolist_even_order_negative_weight :
   den_k 0%Z 1%Z Z.add Z.mul (mkK [1; 1]%Z (k_tolist Z.mul ex_root Z.sgn Z.abs (Z.eqb 1) exL)) [2; 1] =
   den_k 0%Z 1%Z Z.add Z.mul exL [2; 1].
 Proof. split; reflexivity. Qed.
+(* fixsigns(other) on the former A-29 witness (identity factors against their negatives, three negative correlations per
+   component): two of the three factors are negated, the tensor is unchanged, one negative correlation remains *)
+Example C08_example_fixsigns_other_odd :
+  let I2 := [[1; 0]; [0; 1]]%Z in let M2 := [[-1; 0]; [0; -1]]%Z in
+  let A := mkK [1; 1]%Z [I2; I2; I2] in let B := mkK [1; 1]%Z [M2; M2; M2] in
+  let A' := k_fixsigns_other_core 0%Z 1%Z Z.add Z.mul Z.opp (fun x => Z.ltb x 0) Z.leb A B in
+  kfactors A' = [M2; M2; I2] /\ den_k 0%Z 1%Z Z.add Z.mul A' [1; 1; 1] = 1%Z /\
+  fso_scores 0%Z Z.add Z.mul A B 0 = [-1; -1; -1]%Z /\ fso_scores 0%Z Z.add Z.mul A' B 0 = [1; 1; -1]%Z.
+Proof. vm_compute. repeat split; reflexivity. Qed.
